@@ -11,6 +11,10 @@ CHECKS = {
          "Seeded search over (array geometry, view geometries valid and invalid, virtual origin incl. near zero, histories of adds / RTs / gauge updates / ticks biased to bucket, cycle and second boundaries and idle gaps longer than the array); after every read every getter of BucketLeapArray, SlidingWindowMetric and BaseStatNode must equal the aggregate of the reference event log over the aligned window. Sampling, not enumeration: a clean batch is evidence, not proof.",
          "Trusted: the reference window model (model/window.go), the virtual clock seam (util.SetClock), Go's atomic semantics under a single caller. Time is non-decreasing and >= 1 ms.", "DESIGN.md §3 C08"),
 }
+CHECKS["C09"] = ("E2", "deterministic simulation: cooperative seeded scheduler (random walk / PCT) deciding the runner at every atomic access, lock and Gosched of the leap array (overlay import substitution), virtual clock ticks under the property's stall precondition; history oracle with event sequence numbers; ddmin-minimised literal schedule replay",
+  "exploration",
+  "2-3 simulated callers (thorough: up to 12) each doing 1-2 AddCount / Count / Values / view GetSum operations around a bucket boundary on a pre-filled array; the scheduler interleaves them at every atomic access of currentBucketOfTime, ResetBucketTo and MetricBucket; oracles over the recorded history: no read exceeds what was recorded in or after its window (no invention, duplication or expired data), at quiescence no bucket holds more than the amounts whose timestamps select it, buckets whose rollover nobody overlapped are exact, every caller terminates within the step budget. Sampled interleavings (hundreds of thousands per quick run), not all.",
+  "Trusted: the cooperative scheduler and shims (sim/), that yield points before each atomic/lock op are the only relevant preemption points (sequential consistency of Go atomics), the history oracle. Real goroutines, one running at a time.", "DESIGN.md §3 C09")
 NOT_YET = {}
 props = [json.loads(l) for l in open(os.path.join(HERE, 'properties.jsonl'))]
 checks, na = [], []
